@@ -1,4 +1,5 @@
 import GJS.Schema
+import GJS.Model.Gen
 /-
   C13 — equivalent spellings of a schema generate identical code.
   Parse level: the re-spellings are identified before the generator ever sees them.
@@ -30,5 +31,23 @@ theorem defs_fallback (d : List (String × Schema)) :
      | some x, _ => x | none, o => o.getD []) =
     (match (none : Option (List (String × Schema))), (some d : Option (List (String × Schema))) with
      | some x, _ => x | none, o => o.getD []) := rfl
+
+/-- whether a composition's branches are "all primitive" (then the composed position is `interface{}`) does not
+    depend on the order in which a branch lists its types: `["null","object"]` = `["object","null"]` (R10) -/
+theorem primitive_list_order_free (bs : List Schema) (p : Schema → Schema)
+    (h : ∀ b, (p b).node.types.Perm b.node.types) :
+    isPrimitiveTypeList (bs.map p) = isPrimitiveTypeList bs := by
+  unfold isPrimitiveTypeList
+  induction bs with
+  | nil => rfl
+  | cons b bs ih =>
+    simp only [List.map_cons, List.all_cons]
+    rw [ih, (h b).all_eq]
+
+/-- a nullable object branch is not primitive, in either spelling -/
+theorem nullable_object_not_primitive (n : NodeF Schema) :
+    isPrimitiveTypeList [.mk { n with types := ["null", "object"] }] = false ∧
+    isPrimitiveTypeList [.mk { n with types := ["object", "null"] }] = false := by
+  constructor <;> simp [isPrimitiveTypeList, Schema.node, isPrimitiveTypeName]
 
 end GJS.Props.C13
